@@ -9,6 +9,8 @@ import ast
 import hashlib
 import os
 
+from .normalise import normalise
+
 PKG = 'zope.testrunner'
 PKG_DIR = 'src/zope/testrunner'
 
@@ -82,7 +84,8 @@ class ModuleInfo:
     def __init__(self, name, source):
         self.name = name                       # short module name: 'runner'
         self.source = source
-        self.tree = ast.parse(source)
+        self.normalised = {}
+        self.tree = normalise(ast.parse(source), name, self.normalised)
         self.lines = source.splitlines()
         self.imports = {}                      # local alias -> dotted target
         self.functions = {}                    # local qualname -> FuncInfo
